@@ -62,9 +62,29 @@ def _ann_types(prog: Program, m, ann: ast.expr) -> tuple[set[str], bool]:
     return types, optional
 
 
+def _ann_elem_types(prog: Program, m, ann: ast.expr) -> set[str]:
+    """Element/value types of a container annotation: dict[K, V] -> V, list[V]/set[V] -> V."""
+    if isinstance(ann, ast.Constant) and isinstance(ann.value, str):
+        try:
+            ann = ast.parse(ann.value, mode="eval").body
+        except SyntaxError:
+            return set()
+    if isinstance(ann, ast.BinOp) and isinstance(ann.op, ast.BitOr):
+        return _ann_elem_types(prog, m, ann.left) | _ann_elem_types(prog, m, ann.right)
+    if isinstance(ann, ast.Subscript):
+        base = (dotted(ann.value) or "").split(".")[-1]
+        if base in ("dict", "Dict", "defaultdict", "Mapping", "MutableMapping") and isinstance(ann.slice, ast.Tuple) and len(ann.slice.elts) == 2:
+            return _ann_types(prog, m, ann.slice.elts[1])[0]
+        if base in ("list", "List", "set", "Set", "Sequence", "Iterable", "frozenset", "tuple"):
+            sl = ann.slice.elts[0] if isinstance(ann.slice, ast.Tuple) and ann.slice.elts else ann.slice
+            return _ann_types(prog, m, sl)[0]
+    return set()
+
+
 class Resolver:
     def __init__(self, prog: Program):
         self.prog = prog
+        self.attr_elem_types: dict[str, dict[str, set[str]]] = {}
         self.attr_types: dict[str, dict[str, set[str]]] = {}
         self.attr_optional: dict[str, dict[str, bool]] = {}
         self.task_attrs: dict[str, dict[str, str]] = {}
@@ -86,6 +106,9 @@ class Resolver:
                     at.setdefault(name, set()).update(t)
                 if o:
                     ao[name] = True
+                et = _ann_elem_types(p, c.module, ann)
+                if et:
+                    self.attr_elem_types.setdefault(c.qualname, {}).setdefault(name, set()).update(et)
             for name, vals in c.assigns.items():
                 for v in vals:
                     if isinstance(v, ast.Constant) and v.value is None:
@@ -116,6 +139,9 @@ class Resolver:
                         at.setdefault(tgt.attr, set()).update(t)
                     if o:
                         ao[tgt.attr] = True
+                    et = _ann_elem_types(p, f.module, ann)
+                    if et:
+                        self.attr_elem_types.setdefault(c.qualname, {}).setdefault(tgt.attr, set()).update(et)
                 if val is None:
                     continue
                 if isinstance(val, ast.Constant) and val.value is None:
@@ -158,6 +184,14 @@ class Resolver:
         for sc in self.prog.subclasses(clsname):
             out |= self.attr_types.get(sc, {}).get(attr, set())
         return out
+
+    def attr_elem_type(self, clsname: str, attr: str) -> set[str]:
+        # the most derived declaration wins (BleController.pairings: dict[str, BlePairing])
+        for cn in self.prog.mro(clsname):
+            t = self.attr_elem_types.get(cn, {}).get(attr)
+            if t:
+                return set(t)
+        return set()
 
     def attr_is_optional(self, clsname: str, attr: str) -> bool:
         for cn in self.prog.mro(clsname):
@@ -206,6 +240,26 @@ class Resolver:
                 tgt, val = n.target.id, n.value
             if tgt is None or val is None:
                 continue
+            owner = f
+            while owner.parent is not None:
+                owner = owner.parent
+            if owner.cls is not None:
+                # x = self.T.get(k) / self.T[k] / self.T.pop(k)   with  T: dict[K, V]
+                cont = None
+                if isinstance(val, ast.Call) and isinstance(val.func, ast.Attribute) and val.func.attr in ("get", "pop", "setdefault"):
+                    cont = val.func.value
+                elif isinstance(val, ast.Subscript):
+                    cont = val.value
+                if (
+                    cont is not None
+                    and isinstance(cont, ast.Attribute)
+                    and isinstance(cont.value, ast.Name)
+                    and cont.value.id == "self"
+                ):
+                    et = self.attr_elem_type(owner.cls.qualname, cont.attr)
+                    if et:
+                        out.setdefault(tgt, set()).update(et)
+                        continue
             if isinstance(val, ast.Call):
                 fn = dotted(val.func)
                 if fn:
